@@ -28,23 +28,26 @@ from pywbem import (CIMInstance, CIMInstanceName, CIMClassName, CIMProperty,
 import mockrepo
 
 NSNAME = {1: "root/v1", 2: "root/v2"}
-CLASSNAME = {"N": "Vn_Node", "NS": "Vn_NodeSub", "M": "Vm_Mate",
-             "AB": "Va_Link", "ABS": "Va_LinkSub", "AT": "Va_Triple",
-             "AL": "Va_Loose", "ZZ": "Vz_Missing"}
+CLASSNAME = {"N": "Vn_Node", "NS": "Vn_NodeSub", "NSS": "Vn_NodeSubSub",
+             "M": "Vm_Mate", "AB": "Va_Link", "ABS": "Va_LinkSub",
+             "ABSS": "Va_LinkSubSub", "AT": "Va_Triple", "AL": "Va_Loose",
+             "ZZ": "Vz_Missing"}
 TOKEN_OF_CLASS = {v.lower(): k for k, v in CLASSNAME.items() if k != "ZZ"}
 ROLENAME = {"r1": "Antecedent", "r2": "Dependent", "a": "First",
             "b": "Second", "c": "Third", "zz": "NoSuchRole"}
-ROLES = {"AB": ["r1", "r2"], "ABS": ["r1", "r2"], "AL": ["r1", "r2"],
-         "AT": ["a", "b", "c"]}
-REFCLASS = {"AB": ["N", "M"], "ABS": ["N", "M"], "AL": ["N", "M"],
-            "AT": ["N", "N", "M"]}
-SUBTREE = {"N": ["N", "NS"], "NS": ["NS"], "M": ["M"]}
-NODE_CLASSES = ("N", "NS", "M")
-ASSOC_CLASSES = ("AB", "ABS", "AT", "AL")
+ROLES = {"AB": ["r1", "r2"], "ABS": ["r1", "r2"], "ABSS": ["r1", "r2"],
+         "AL": ["r1", "r2"], "AT": ["a", "b", "c"]}
+REFCLASS = {"AB": ["N", "M"], "ABS": ["N", "M"], "ABSS": ["N", "M"],
+            "AL": ["N", "M"], "AT": ["N", "N", "M"]}
+SUBTREE = {"N": ["N", "NS", "NSS"], "NS": ["NS", "NSS"], "NSS": ["NSS"],
+           "M": ["M"]}
+NODE_CLASSES = ("N", "NS", "NSS", "M")
+ASSOC_CLASSES = ("AB", "ABS", "ABSS", "AT", "AL")
 
 SCHEMA = """
 class Vn_Node { [Key] uint32 Id; [Key] string Tag; string s; };
 class Vn_NodeSub : Vn_Node { string t; };
+class Vn_NodeSubSub : Vn_NodeSub { string u; };
 class Vm_Mate { [Key] uint32 Id; [Key] string Tag; string s; };
 [Association] class Va_Link {
     [Key] Vn_Node REF Antecedent;
@@ -52,15 +55,18 @@ class Vm_Mate { [Key] uint32 Id; [Key] string Tag; string s; };
     string note;
 };
 [Association] class Va_LinkSub : Va_Link { uint8 w; };
+[Association] class Va_LinkSubSub : Va_LinkSub { uint8 v; };
 [Association] class Va_Triple {
     [Key] Vn_Node REF First;
     [Key] Vn_Node REF Second;
     [Key] Vm_Mate REF Third;
+    string note;
 };
 [Association] class Va_Loose {
     [Key] uint32 Id;
     Vn_Node REF Antecedent;
     Vm_Mate REF Dependent;
+    string note;
 };
 """
 
@@ -118,9 +124,16 @@ def node_tag(i):
     return "t%d" % i
 
 
+def kid_of(node, i):
+    """Key token of node i: its own index unless the node is declared a twin
+    (same class and key values as a node of another namespace)."""
+    return node.get("kid", i)
+
+
 def node_path(rng, node, i, vary=True, with_ns=True):
-    """Concrete instance path of node i (node = dict ns, cls)."""
+    """Concrete instance path of node i (node = dict ns, cls[, kid])."""
     cn = CLASSNAME[node["cls"]]
+    i = kid_of(node, i)
     idv = i if (vary and rng.random() < 0.5) else Uint32(i)
     kbs = [("Id", idv), ("Tag", node_tag(i))]
     if vary:
@@ -203,8 +216,9 @@ def build(rng, nodes, creates, mode, use_pull):
                 if n["ns"] != nsid:
                     continue
                 lines.append('instance of %s { Id = %d; Tag = %s; s = %s; };'
-                             % (maybe_recase(rng, CLASSNAME[n["cls"]], 0.3), i,
-                                _mof_str(node_tag(i)), _mof_str("L%d" % i)))
+                             % (maybe_recase(rng, CLASSNAME[n["cls"]], 0.3),
+                                kid_of(n, i), _mof_str(node_tag(kid_of(n, i))),
+                                _mof_str("L%d" % i)))
             if lines:
                 conn.compile_mof_string("\n".join(lines),
                                         namespace=NSNAME[nsid])
@@ -212,8 +226,8 @@ def build(rng, nodes, creates, mode, use_pull):
                            (NSNAME[nsid], len(lines)))
     else:
         for i, n in enumerate(nodes, 1):
-            props = [("Id", Uint32(i)), ("Tag", node_tag(i)),
-                     ("s", "L%d" % i)]
+            props = [("Id", Uint32(kid_of(n, i))),
+                     ("Tag", node_tag(kid_of(n, i))), ("s", "L%d" % i)]
             rng.shuffle(props)
             inst = CIMInstance(maybe_recase(rng, CLASSNAME[n["cls"]], 0.3),
                                properties=[(maybe_recase(rng, k, 0.3), v)
@@ -221,7 +235,12 @@ def build(rng, nodes, creates, mode, use_pull):
             conn.CreateInstance(inst, namespace=NSNAME[n["ns"]])
         log.append("CreateInstance x %d node instances" % len(nodes))
     alid = 0
-    for c in creates:
+    made = {}          # position of the create in `creates` -> instance path
+    nmod = {}
+    for pos, c in enumerate(creates):
+        if c.get("op", "create") == "modify":
+            _modify(rng, conn, log, made, nmod, c)
+            continue
         roles = ROLES[c["cls"]]
         ends = []
         nulls = []
@@ -238,6 +257,10 @@ def build(rng, nodes, creates, mode, use_pull):
         if c["cls"] == "AL":
             alid += 1
             extra.append(("Id", Uint32(alid)))
+        made[pos] = CIMInstanceName(
+            CLASSNAME[c["cls"]], namespace=NSNAME[c["ns"]],
+            keybindings=extra if c["cls"] == "AL" else
+            [(k, q.copy()) for k, q in ends])
         cn = maybe_recase(rng, CLASSNAME[c["cls"]], 0.3)
         if mode == "mof":
             body = []
@@ -277,6 +300,31 @@ def build(rng, nodes, creates, mode, use_pull):
     return conn, log
 
 
+def _modify(rng, conn, log, made, nmod, c):
+    """ModifyInstance of the non-reference property `note` of the association
+    instance made by creates[c["target"]], addressed to its copy in namespace
+    c["ns"] (AssocImpl!Modify).  The new value is W<number of the change>."""
+    path = made[c["target"]].copy()
+    path.namespace = NSNAME[c["ns"]]
+    nmod[c["target"]] = k = nmod.get(c["target"], 0) + 1
+    value = "W%d" % k
+    how = rng.choice(("get+modify", "partial+PropertyList"))
+    log.append("ModifyInstance(%s) note=%s [%s]" % (path, value, how))
+    try:
+        if how == "get+modify":
+            inst = conn.GetInstance(respell(rng, path))
+            inst[maybe_recase(rng, "note", 0.3)] = value
+            conn.ModifyInstance(inst)
+        else:
+            inst = CIMInstance(maybe_recase(rng, path.classname, 0.3),
+                               properties=[("note", value)],
+                               path=respell(rng, path))
+            conn.ModifyInstance(inst,
+                                PropertyList=[maybe_recase(rng, "note", 0.3)])
+    except Exception as exc:  # noqa: the build is not judged, only logged
+        log.append("  -> %s: %s" % (type(exc).__name__, exc))
+
+
 # ----------------------------------------------------------------------------
 # projection
 # ----------------------------------------------------------------------------
@@ -299,15 +347,27 @@ def pkey(path, ns=None):
                          for k, v in path.keybindings.items())))
 
 
-def _sv(inst):
-    """Token of the value of property s: 'L<i>' -> i, anything else -> 0."""
+def _tokval(inst, prop, letter):
     try:
-        v = inst.properties["s"].value
+        v = inst.properties[prop].value
     except KeyError:
         return 0
-    if isinstance(v, str) and v[:1] == "L" and v[1:].isdigit():
+    if isinstance(v, str) and v[:1] == letter and v[1:].isdigit():
         return int(v[1:])
     return 0
+
+
+def _sv(inst):
+    """Token of the value of property s: 'L<i>' -> i, anything else -> 0."""
+    return _tokval(inst, "s", "L")
+
+
+def _wv(inst):
+    """Token of the value of property note: 'W<k>' -> k, not set -> 0."""
+    return _tokval(inst, "note", "W")
+
+
+_NSID = {v: k for k, v in NSNAME.items()}
 
 
 class Stored:
@@ -331,9 +391,13 @@ class Stored:
         self.nodes = []
         self.node_index = {}
         self.node_paths = []
+        self.kids = {}           # key values (modulo case/order/type) -> token
         for nsid, tok, inst in node_items:
-            self.nodes.append({"ns": nsid, "cls": tok, "sv": _sv(inst)})
-            self.node_index[pkey(inst.path, NSNAME[nsid])] = len(self.nodes)
+            k = pkey(inst.path, NSNAME[nsid])
+            self.nodes.append({"ns": nsid, "cls": tok, "sv": _sv(inst),
+                               "kid": self.kids.setdefault(
+                                   k[2], len(self.kids) + 1)})
+            self.node_index[k] = len(self.nodes)
             q = inst.path.copy()
             q.namespace = NSNAME[nsid]
             q.host = None
@@ -348,7 +412,10 @@ class Stored:
             ends = self.ends_of(tok, inst, add_phantoms=True)
             k = pkey(inst.path, NSNAME[nsid])
             g = groups.setdefault(k[1:], len(groups) + 1)
-            self.assocs.append({"cls": tok, "ends": ends, "ns": nsid, "g": g})
+            # pns: the namespace the stored object's own path states
+            pns = _NSID.get((inst.path.namespace or "").strip("/").lower(), 0)
+            self.assocs.append({"cls": tok, "ends": ends, "ns": nsid, "g": g,
+                                "w": _wv(inst), "pns": pns})
             self.assoc_index[k] = len(self.assocs)
 
     def ends_of(self, tok, inst, add_phantoms=False):
@@ -372,7 +439,12 @@ class Stored:
                 ctok = TOKEN_OF_CLASS.get(k[1])
                 if ctok not in SUBTREE[rc]:
                     ctok = rc
-                self.nodes.append({"ns": nsid, "cls": ctok, "sv": 0})
+                kid = self.kids.setdefault(k[2], len(self.kids) + 1)
+                if any((n["ns"], n["cls"], n["kid"]) == (nsid, ctok, kid)
+                       for n in self.nodes):
+                    kid = 10000 + len(self.nodes)
+                self.nodes.append({"ns": nsid, "cls": ctok, "sv": 0,
+                                   "kid": kid})
                 i = self.node_index[k] = len(self.nodes)
             ends.append(i if i is not None else -1)
         return ends
@@ -419,7 +491,8 @@ def project(stored, kind, full, objs):
             v = []
             if full:
                 tok = TOKEN_OF_CLASS.get(o.classname.lower())
-                v = stored.ends_of(tok, o) if tok in ASSOC_CLASSES else [-1]
+                v = (stored.ends_of(tok, o) + [_wv(o)]
+                     if tok in ASSOC_CLASSES else [-1])
         rows.append((i, v))
     rows.sort()
     return {"k": "ok", "ids": [r[0] for r in rows],
@@ -679,20 +752,33 @@ def run_job(job):
 # ----------------------------------------------------------------------------
 
 def random_graph(rng, nnodes, nassoc):
-    """Type-correct graph with at least one N-ish and one M node."""
+    """Type-correct graph with at least one N-ish and one M node.  Nodes of
+    the second namespace are, with probability ~0.4, twins of a node of the
+    first one (same class and key values, a different object); some of the
+    association instances get a ModifyInstance of `note` afterwards
+    (addressed to any namespace that holds a copy)."""
     nodes = [{"ns": 1, "cls": "N"}, {"ns": rng.choice((1, 2)), "cls": "M"}]
     while len(nodes) < nnodes:
         nodes.append({"ns": rng.choice((1, 1, 2)),
-                      "cls": rng.choice(("N", "NS", "M", "N", "M"))})
+                      "cls": rng.choice(("N", "NS", "NSS", "M", "N", "M"))})
     rng.shuffle(nodes)
-    ns_ = [i for i, n in enumerate(nodes, 1) if n["cls"] in ("N", "NS")]
+    taken = set()
+    for i, n in enumerate(nodes, 1):
+        if n["ns"] == 2 and rng.random() < 0.4:
+            cand = [j for j, m in enumerate(nodes, 1)
+                    if m["ns"] == 1 and m["cls"] == n["cls"]
+                    and j not in taken]
+            if cand:
+                n["kid"] = rng.choice(cand)
+                taken.add(n["kid"])
+    ns_ = [i for i, n in enumerate(nodes, 1) if n["cls"] in SUBTREE["N"]]
     ms_ = [i for i, n in enumerate(nodes, 1) if n["cls"] == "M"]
     creates = []
     seen = set()
     tries = 0
     while len(creates) < nassoc and tries < nassoc * 20:
         tries += 1
-        cls = rng.choice(("AB", "AB", "ABS", "AT", "AT", "AL"))
+        cls = rng.choice(("AB", "AB", "ABS", "ABSS", "AT", "AT", "AL"))
         if cls == "AT":
             a = rng.choice(ns_)
             b = a if rng.random() < 0.25 else rng.choice(ns_)
@@ -705,8 +791,16 @@ def random_graph(rng, nnodes, nassoc):
         if key in seen and cls != "AL":
             continue
         seen.add(key)
-        creates.append({"cls": cls, "ends": ends, "ns": rng.choice((1, 1, 2))})
-    return nodes, creates
+        creates.append({"op": "create", "cls": cls, "ends": ends,
+                        "ns": rng.choice((1, 1, 2))})
+    ops = list(creates)
+    for pos, c in enumerate(creates):
+        if rng.random() < 0.2:
+            homes = sorted({c["ns"]} | {nodes[e - 1]["ns"]
+                                        for e in c["ends"] if e})
+            ops.append({"op": "modify", "target": pos, "cls": c["cls"],
+                        "ends": c["ends"], "ns": rng.choice(homes)})
+    return nodes, ops
 
 
 def decode_query(lists, kind, i):
